@@ -575,6 +575,21 @@ func C16(p *ir.Program, r *report.R) {
 		}
 		r.Check("K1", "nil-refusing-methods/sites", "-", n >= 1, fmt.Sprintf("%d calls of nil-refusing methods on state fields found", n))
 	}
+	// the recover branch of defaultSetProposal (entered before any signature check: known finding) is at
+	// least gated on the time the node has spent at this height: cs.StartTime, which is always set;
+	// cs.CommitTime is the zero time on a freshly started node, a gate on it is open for any peer
+	{
+		sp := p.Func("consensus", "ConsensusState.defaultSetProposal")
+		n := 0
+		for _, s := range p.Stores(p.Field("consensus", "ConsensusState.stepRecover")) {
+			if ir.EnclosingTop(s.Fn) != sp || ir.Render(s.Val) != "true" {
+				continue
+			}
+			n++
+			c.Guards("consensus.(*ConsensusState).defaultSetProposal", "enter recover", s.Instr, G{"waited-since-height-start", "!time.Time.After(time.Time.Add(cs.RoundState.StartTime,*),time.Now())"})
+		}
+		c.MustFind("K1", "consensus.(*ConsensusState).defaultSetProposal/enter recover", sp, n, "cs.stepRecover = true")
+	}
 }
 
 var _ = report.Discharged
